@@ -2,6 +2,7 @@ package headers
 
 import (
 	"fmt"
+	"math"
 	"strconv"
 	"strings"
 	"time"
@@ -161,7 +162,8 @@ func unmarshalRangeNPTTime(d *time.Duration, s string) error {
 	}
 	seconds := tmp
 
-	*d = time.Duration(seconds*float64(time.Second)) +
+	// round instead of truncating: 1.001 * 1e9 is 1000999999.9999999 in floating point
+	*d = time.Duration(math.Round(seconds*float64(time.Second))) +
 		time.Duration(mins*60+hours*3600)*time.Second
 
 	return nil
